@@ -842,6 +842,7 @@ protected:
       }
 
       std::size_t requestEndPos;
+      std::string decodedBody; // chunked requests only: the chunk data, concatenated
 
       if (isChunked && haveContentLength)
       {
@@ -856,7 +857,7 @@ protected:
       if (isChunked)
       {
         // Handle chunked encoding
-        requestEndPos = findChunkedRequestEnd(dataStr, headerEnd + 4);
+        requestEndPos = findChunkedRequestEnd(dataStr, headerEnd + 4, &decodedBody);
         if (requestEndPos == kChunkedMalformed)
         {
           iora::core::Logger::error("HttpServer: malformed chunked body for session " +
@@ -882,6 +883,13 @@ protected:
 
       // Extract complete request
       std::string requestData = dataStr.substr(0, requestEndPos);
+      if (isChunked)
+      {
+        // The chunk framing (size lines, extensions, trailer section) is transfer
+        // detail: hand the application the header section followed by the decoded
+        // body, exactly as for a Content-Length request (RFC 9112 7.1).
+        requestData = dataStr.substr(0, headerEnd + 4) + decodedBody;
+      }
 
       // Remove processed data from buffer
       dataStr = dataStr.substr(requestEndPos);
@@ -1397,10 +1405,16 @@ protected:
   /// valid (as opposed to npos = "need more data").
   static constexpr std::size_t kChunkedMalformed = std::string::npos - 1;
 
-  /// \brief Find the end of a chunked request body
-  std::size_t findChunkedRequestEnd(const std::string &data, std::size_t bodyStart) const
+  /// \brief Find the end of a chunked request body. If \p decodedBody is given it
+  /// receives the concatenated chunk data (extensions and trailers dropped).
+  std::size_t findChunkedRequestEnd(const std::string &data, std::size_t bodyStart,
+                                    std::string *decodedBody = nullptr) const
   {
     std::size_t pos = bodyStart;
+    if (decodedBody)
+    {
+      decodedBody->clear();
+    }
 
     while (pos < data.length())
     {
@@ -1464,13 +1478,23 @@ protected:
 
       if (chunkSize == 0)
       {
-        // Final chunk, look for final \r\n
-        auto finalCRLF = data.find("\r\n", pos);
-        if (finalCRLF == std::string::npos)
+        // Last chunk: the message ends after the (possibly empty) trailer
+        // section, i.e. at the first EMPTY line - not at the first CRLF, which
+        // would cut the message inside a trailer field and leave the remaining
+        // bytes to be parsed as the next request.
+        while (true)
         {
-          return std::string::npos; // Need more data
+          auto lineEnd = data.find("\r\n", pos);
+          if (lineEnd == std::string::npos)
+          {
+            return std::string::npos; // Need more data
+          }
+          if (lineEnd == pos)
+          {
+            return lineEnd + 2; // empty line: end of message
+          }
+          pos = lineEnd + 2; // skip one trailer field-line
         }
-        return finalCRLF + 2;
       }
 
       // Skip chunk data + trailing \r\n. Compare by subtraction - chunkSize is
@@ -1480,6 +1504,15 @@ protected:
       if (data.length() - pos < chunkSize + 2)
       {
         return std::string::npos; // Need more data
+      }
+      if (data[pos + chunkSize] != '\r' || data[pos + chunkSize + 1] != '\n')
+      {
+        iora::core::Logger::error("HttpServer: chunk data not followed by CRLF");
+        return kChunkedMalformed;
+      }
+      if (decodedBody)
+      {
+        decodedBody->append(data, pos, chunkSize);
       }
       pos += chunkSize + 2;
     }
